@@ -143,6 +143,7 @@ def main(ctx):
         for mc in (1, 2):
             jobs.append({"part": "limit", "tier": tier, "max": mc})
         jobs.append({"part": "deferred", "tier": tier})
+        jobs.append({"part": "proxy", "tier": tier})
         ctx.pmap({"fw": fw, "nvx": "1"}, "props.c07:job", jobs)
     ctx.coverage["states"] = int(ctx.counters["cases"])
     ctx.coverage["transitions"] = int(ctx.counters["evaluations"])
@@ -151,7 +152,8 @@ def main(ctx):
     for n in ("ref:accept", "ref:reject", "ref:either", "server_open", "server_rejected",
               "client_open", "client_rejected", "token_strings", "url_cases", "segment_execs",
               "interop_pairs", "limit_sequences", "limit_rejected", "limit_admitted",
-              "deferred_cases", "deferred_late_resolution", "deferred_client_cases"):
+              "deferred_cases", "deferred_late_resolution", "deferred_client_cases",
+              "proxy_cases", "proxy_open", "proxy_refused", "proxy_timeout"):
         ctx.require(n)
 
 
@@ -281,7 +283,7 @@ def job(a):
     part = a["part"]
     fn = {"server": _job_server, "tokens": _job_tokens, "client": _job_client, "urls": _job_urls,
           "segment": _job_segment, "interop": _job_interop, "limit": _job_limit,
-          "deferred": _job_deferred}[part]
+          "deferred": _job_deferred, "proxy": _job_proxy}[part]
     return fn(a, env)
 
 
@@ -826,6 +828,117 @@ def _job_deferred(a, env):
                     viol.append(_viol(clause, "deferred-onconnecting", lab + ": " + detail, env, a, "deferred"))
     return {"evals": evals, "viol": viol, "stats": stats,
             "samples": [{"part": "deferred", "cases": stats["deferred_cases"]}]}
+
+
+def _job_proxy(a, env):
+    """client configured with an explicit HTTP proxy (factory option proxy={host, port}): the client
+    first sends CONNECT host:port and only after a 2xx answer of the proxy starts the WebSocket
+    handshake.  Every proxy answer of the menu x segmentation; a proxy that never (completely)
+    answers runs into the opening-handshake timeout.  Oracle: OPEN only after a 2xx answer of the
+    proxy AND a valid 101 of the server; everything else ends in a dropped connection, never in
+    OPEN, never in an exception escaping to the framework (incl. out of timers)."""
+    from harness import ws
+    from mc.core import cut
+    stats = {"proxy_cases": 0, "proxy_open": 0, "proxy_refused": 0, "proxy_timeout": 0, "cases": 0,
+             "nontrivial": 0}
+    viol = []
+    evals = 0
+    seen = {}
+    answers = [
+        ("200", b"HTTP/1.1 200 Connection established\r\n\r\n", True),
+        ("200-http10", b"HTTP/1.0 200 OK\r\nProxy-Agent: x\r\n\r\n", True),
+        ("204", b"HTTP/1.1 204 No Content\r\n\r\n", True),
+        ("407", b"HTTP/1.1 407 Proxy Authentication Required\r\nProxy-Authenticate: Basic\r\n\r\n", False),
+        ("502", b"HTTP/1.1 502 Bad Gateway\r\n\r\n", False),
+        ("302", b"HTTP/1.1 302 Found\r\nLocation: http://elsewhere/\r\n\r\n", False),
+        ("http2", b"HTTP/2.0 200 OK\r\n\r\n", False),
+        ("status-abc", b"HTTP/1.1 abc OK\r\n\r\n", False),
+        ("one-token", b"HTTP/1.1\r\n\r\n", False),
+        ("empty-line", b"\r\n\r\n", False),
+        ("garbage", b"\x16\x03\x01\x02\x00\x01\r\n\r\n", False),
+        ("non-ascii", b"HTTP/1.1 200 \xc3\xa9tabli\xff\r\nX: \xfe\r\n\r\n", None),
+        ("header-no-colon", b"HTTP/1.1 200 OK\r\nnocolonhere\r\n\r\n", None),
+        ("101-instead", b"HTTP/1.1 101 Switching Protocols\r\nUpgrade: websocket\r\n\r\n", False),
+        ("truncated", b"HTTP/1.1 200 Connection esta", "timeout"),
+        ("silent", b"", "timeout"),
+    ]
+    for label, answer, ok in answers:
+        segs = [[]]
+        if answer:
+            segs += [[1], list(range(7, len(answer), 7)), list(range(1, len(answer)))]
+        for cuts in segs:
+            for coalesce in ((False, True) if ok is True and not cuts else (False,)):
+                ep = ws.Endpoint("client", {"openHandshakeTimeout": 2}, proxy={"host": "proxy.local", "port": 3128})
+                ep.conn.settle()
+                req = bytes(ep.take())
+                evals += 1
+                stats["proxy_cases"] += 1
+                stats["cases"] += 1
+                stats["nontrivial"] += 1
+                lab = "proxy answer %s cuts=%s%s" % (label, cuts[:3], " +101 in the same read" if coalesce else "")
+                probs = []
+                if not req.startswith(b"CONNECT localhost:9000 HTTP/1.1\r\n"):
+                    probs.append(("proxy-connect-request", repr(req[:80])))
+                if ep.state() == 3:
+                    probs.append(("open-before-anything", ""))
+                opened_expected = False
+                if coalesce:
+                    # cannot know the key before the request is written: deliver the proxy answer,
+                    # then the 101 - but without letting time pass in between
+                    for seg in cut(answer, cuts):
+                        ep.feed(seg)
+                else:
+                    for seg in cut(answer, cuts):
+                        if ep.conn.lost or not ep.t.reading():
+                            break
+                        ep.feed(seg)
+                ep.conn.settle()
+                wsreq = bytes(ep.take())
+                if ok is True:
+                    if b"Sec-WebSocket-Key" not in wsreq:
+                        probs.append(("no-handshake-after-proxy-ok", "wrote %r state=%s calls=%s" % (
+                            wsreq[:60], ep.state(), ep.t.calls)))
+                    else:
+                        ep.feed(ep.client_response(wsreq))
+                        ep.conn.settle()
+                        opened_expected = True
+                        if ep.state() != 3 or "onOpen" not in [e[0] for e in ep.rec]:
+                            probs.append(("valid-proxy-and-server-not-opened", "state=%s" % ep.state()))
+                        else:
+                            stats["proxy_open"] += 1
+                else:
+                    if ok == "timeout":
+                        if ep.t.calls or ep.conn.lost:
+                            probs.append(("dropped-before-timeout", "calls=%s" % ep.t.calls))
+                        ep.conn.advance(2.5)
+                        ep.conn.settle()
+                        stats["proxy_timeout"] += 1
+                    if b"Sec-WebSocket-Key" in wsreq and ok is False:
+                        probs.append(("handshake-after-proxy-refusal", repr(wsreq[:60])))
+                    if ok is not None:
+                        if ep.state() == 3:
+                            probs.append(("open-without-proxy-ok", ""))
+                        if not (ep.t.calls or ep.conn.lost):
+                            probs.append(("not-dropped", "state=%s timers=%s" % (ep.state(), ep.conn.pending_timers())))
+                        else:
+                            stats["proxy_refused"] += 1
+                if ep.conn.escapes:
+                    probs.append(("escape", repr(ep.conn.escapes[0])[:200]))
+                # the end: our own drop is delivered, a long silence follows
+                if ep.conn.own_drop_pending():
+                    ep.conn.deliver_own_drop()
+                    ep.conn.settle()
+                ep.conn.advance(30.0)
+                if ep.conn.escapes and not any(c == "escape" for c, _ in probs):
+                    probs.append(("escape", "later: " + repr(ep.conn.escapes[0])[:200]))
+                if not opened_expected and ep.state() == 3:
+                    probs.append(("open-without-proxy-ok", "after the drop"))
+                for clause, detail in probs:
+                    seen[clause] = seen.get(clause, 0) + 1
+                    if seen[clause] <= 2:
+                        viol.append(_viol(clause, "proxy", lab + ": " + detail, env, a, "proxy"))
+    return {"evals": evals, "viol": viol, "stats": stats,
+            "samples": [{"part": "proxy", "cases": stats["proxy_cases"]}]}
 
 
 def _job_interop(a, env):
